@@ -49,6 +49,7 @@ MESSAGES = {
     "balanced": "a <b>bold</b> word", "opening": "an <info>unclosed tag", "closing": "a stray </info> tag", "crossed": "<b>crossed</info> tags",
     "escaped": "an \\<b> escaped tag", "long": "word " * 1000, "empty": "", "anyclose": "closing </> nothing", "lt": "1 < 2 and 3 > 2",
     "unknown": "<foo>unknown</foo> tag", "inline": "<fg=red>red</> text",
+    "longword": "no such file: /" + "very-long-path-component/" * 12 + "file.txt and " + "Z" * 300,
     "continued": "pip install \\\n    --no-deps demo", "backslashes": "path C:\\temp\\new and \\\\server", "ends-backslash": "directory C:\\temp\\",
 }
 LINES_SINGLE = [
